@@ -18,9 +18,36 @@ pub enum CpuFeature {
     Neon,
 }
 
+/// Verification hook (only with `--cfg rubato_verif`): bit mask of CPU features that
+/// [CpuFeature::is_detected] reports as missing. Bit 0 = sse3, bit 1 = avx, bit 2 = fma, bit 3 = neon.
+#[cfg(rubato_verif)]
+static VERIF_CPU_MASK: std::sync::atomic::AtomicU8 = std::sync::atomic::AtomicU8::new(0);
+
+/// Verification hook (only with `--cfg rubato_verif`): hide CPU features from the run-time dispatch.
+#[cfg(rubato_verif)]
+pub fn verif_set_cpu_mask(mask: u8) {
+    VERIF_CPU_MASK.store(mask, std::sync::atomic::Ordering::SeqCst);
+}
+
 impl CpuFeature {
     /// Test if the given CPU feature is detected.
     pub fn is_detected(&self) -> bool {
+        #[cfg(rubato_verif)]
+        {
+            let bit: u8 = match *self {
+                #[cfg(target_arch = "x86_64")]
+                CpuFeature::Sse3 => 1,
+                #[cfg(target_arch = "x86_64")]
+                CpuFeature::Avx => 2,
+                #[cfg(target_arch = "x86_64")]
+                CpuFeature::Fma => 4,
+                #[cfg(target_arch = "aarch64")]
+                CpuFeature::Neon => 8,
+            };
+            if VERIF_CPU_MASK.load(std::sync::atomic::Ordering::SeqCst) & bit != 0 {
+                return false;
+            }
+        }
         match *self {
             #[cfg(target_arch = "x86_64")]
             CpuFeature::Sse3 => {
